@@ -9,7 +9,8 @@
  *
  * Precondition of the statement (rank of the centred/scaled matrix >= npc; column spread >= 0.02 or
  * exactly 0) is enforced by construction: npc ranges over 1..numerical rank of the library's own
- * preprocessed matrix; ambiguous ranks and condition numbers above 1e6 are pruned and counted. */
+ * preprocessed matrix; ambiguous ranks (a singular value between 1e-11 and 1e-6 of the largest) are
+ * pruned and counted. */
 #include "C01_pcacommon.h"
 
 #define NMAXR 60
@@ -36,20 +37,26 @@ static void body(void) {
   int n, p, big;
   if (sh < nsmall_n * nsmall_p) { n = 2 + sh / nsmall_p; p = 1 + sh % nsmall_p; } else { n = BIGSHAPE[sh - nsmall_n * nsmall_p][0]; p = BIGSHAPE[sh - nsmall_n * nsmall_p][1]; }
   big = n * p > 100;
-  int fam = vx_choose("fam", big ? (vx_thorough() ? 3 : 2) : (vx_thorough() ? 12 : 4));
+  int fam = vx_choose("fam", big ? (vx_thorough() ? 3 : 2) : (vx_thorough() ? 12 : 3));
   int scaling = vx_choose("scaling+1", 7) - 1;
   int off = 0, spr = 0, cc = 0;
-  if (!big || vx_thorough()) {
+  if (!big) {
     off = vx_choose_dev("offset", 4);                       /* 0, 1, -7.5, 1e3 (alternating sign/size per column) */
     spr = vx_choose_dev("spread", 4);                       /* as generated | all columns so that min SD = 0.02 | column 0 to SD 0.02 | all x 1e3 */
     cc = vx_choose_dev("constcol", (p < 3 ? p : 3) + 1);    /* none | first | last | middle column constant */
+  } else if (vx_thorough()) {                               /* boundary shapes: at most one modifier in both tiers' bound */
+    int bm = vx_choose("one-modifier", 7 + (p < 3 ? p : 3));
+    if (bm >= 1 && bm <= 3) off = bm; else if (bm >= 4 && bm <= 6) spr = bm - 3; else if (bm >= 7) cc = bm - 6;
   }
-  /* processor count seen by the MT_ kernels; the last entry runs REAL threads (small sub-alphabet only), the others run the
-   * workers inline on the calling thread (see C01_pcacommon.h) */
-  static const int NPQ[5] = {1, 2, 3, 8, 3}, NPT[7] = {1, 2, 3, 8, 5, 24, 3}, NPBIG[3] = {1, 3, 8};
-  int real_ok = !big && off == 0 && spr == 0 && cc == 0 && fam == 0 && (scaling == 1 || vx_thorough());
+  int plain = off == 0 && spr == 0 && cc == 0;
+  /* processor count seen by the MT_ kernels (slicing depends on the shape only, so the full list is crossed with the
+   * unmodified inputs and {1,3} with the modified ones).  The last entry of the full lists runs REAL threads on a small
+   * sub-alphabet; everywhere else the workers run inline on the calling thread (see C01_pcacommon.h). */
+  static const int NPQ[5] = {1, 2, 3, 8, 3}, NPT[7] = {1, 2, 3, 8, 5, 24, 3}, NPBIG[3] = {1, 8, 3}, NPMOD[2] = {1, 3};
+  int real_ok = !big && plain && fam == 0 && (scaling == 1 || vx_thorough());
   int npi, nproc, real_threads = 0;
-  if (big) nproc = NPBIG[vx_choose("nproc", 3)];
+  if (big) nproc = NPBIG[vx_choose("nproc", (vx_thorough() && plain) ? 3 : 2)];
+  else if (!plain) nproc = NPMOD[vx_choose("nproc", 2)];
   else if (vx_thorough()) { npi = vx_choose("nproc", real_ok ? 7 : 6); nproc = NPT[npi]; real_threads = npi == 6; }
   else { npi = vx_choose("nproc", real_ok ? 5 : 4); nproc = NPQ[npi]; real_threads = npi == 4; }
 
@@ -75,20 +82,27 @@ static void body(void) {
   /* reference preprocessing (long double) and the library's public preprocessing */
   ld *rmean = calloc((size_t)p, sizeof(ld)), *rsf = calloc((size_t)p, sizeof(ld)); int *isconst = calloc((size_t)p, sizeof(int));
   rmat *Eref = ref_preprocess(RX, scaling, rmean, rsf, isconst);
-  ld minsf = INFINITY, maxsf = 1, xmax = rm_maxabs(RX);
-  if (scaling >= 1) for (int j = 0; j < p; j++) if (!isconst[j]) { if (fabsl(rsf[j]) < minsf) minsf = fabsl(rsf[j]); if (fabsl(rsf[j]) > maxsf) maxsf = fabsl(rsf[j]); }
-  /* class of the smallest scale factor w.r.t. the library's two zero-guards (1e-3 at fit, 1e-2 at projection); the thresholds themselves are ties */
-  vx_require(!(fabsl(minsf - 1e-3L) < 1e-9L || fabsl(minsf - 1e-2L) < 1e-8L));
-  const char *sfcls = minsf < 1e-3L ? "abs(colscale)<1e-3" : minsf < 1e-2L ? "1e-3<=abs(colscale)<1e-2" : "colscale-ok";
-  char cls[64]; snprintf(cls, sizeof cls, "scaling=%d,%s", scaling, scaling >= 1 ? sfcls : "colscale-ok");
+  ld maxsf = 1, xmax = rm_maxabs(RX);
+  /* input classes w.r.t. the library's two zero-guards on a scale factor (|f| < 1e-3 at fit, |f| < 1e-2 at projection): a NON-constant
+   * column whose factor falls below them (possible for level scaling only: the factor is the column mean).  The thresholds are ties. */
+  int has_zeroed = 0, has_mid = 0;
+  if (scaling >= 1) for (int j = 0; j < p; j++) if (!isconst[j]) {
+    ld f = fabsl(rsf[j]); if (f > maxsf) maxsf = f;
+    vx_require(!(fabsl(f - 1e-3L) < 1e-9L || fabsl(f - 1e-2L) < 1e-8L));
+    if (f < 1e-3L) has_zeroed = 1; else if (f < 1e-2L) has_mid = 1;
+  }
+  char cls_fit[64], cls_apply[64];
+  snprintf(cls_fit, sizeof cls_fit, "scaling=%d,%s", scaling, has_zeroed ? "nonconst-col-with-abs(colscale)<1e-3" : "colscale-ok");
+  snprintf(cls_apply, sizeof cls_apply, "scaling=%d,%s", scaling, has_mid ? "1e-3<=abs(colscale)<1e-2" : "colscale-ok");
 
   dvector *avg, *scl; initDVector(&avg); initDVector(&scl);
   matrix *E; NewMatrix(&E, (size_t)n, (size_t)p);
   MatrixPreprocess(mx, scaling, avg, scl, E); vx_transition(1);
-  char key[160];
-  {
-    /* library: m^ = sum/n (abs error eps*n*xmax), d = x - m^, f^ from d (relative error eps*n*(1 + xmax/sd + xmax/|f|):
-     * cancellation in the centred squares / in the mean), E = d / f^ */
+  char key[200];
+  if (!has_zeroed) {
+    /* "the preprocessed data" is what the scaling option means.  library: m^ = sum/n (abs error eps*n*xmax), d = x - m^, f^ from d
+     * (relative error eps*n*(1 + xmax/sd + xmax/|f|): cancellation in the centred squares / in the mean), E = d / f^.
+     * Not judged where the guard zeroes a non-constant column: that class is judged by the statement's own clauses below. */
     double worst = 0, worst_tol = 1; int okp = 1;
     for (int j = 0; j < p; j++) {
       ld sfj = (scaling >= 1 && !isconst[j]) ? fabsl(rsf[j]) : 1, sdj = 1, emax = 0;
@@ -97,8 +111,9 @@ static void body(void) {
       double tol = 64 * DEPS * (n + 2) * (double)(xmax / sfj + (scaling >= 1 ? emax * (1 + xmax / sdj + xmax / sfj) : 0));
       for (int i = 0; i < n; i++) { double d = fabs(E->data[i][j] - (double)RM(Eref, i, j)); if (!(d <= tol)) okp = 0; if (d * worst_tol > worst * tol || d != d) { worst = d; worst_tol = tol; } }
     }
-    snprintf(key, sizeof key, "preproc|MatrixPreprocess|%s", cls);
+    snprintf(key, sizeof key, "preproc|MatrixPreprocess|scaling=%d", scaling);
     vx_check(okp, key, "(%dx%d) scaling %d: library preprocessing differs from (x-mean)/scale by %g (allowance %g)", n, p, scaling, worst, worst_tol);
+    margin_note("preproc", worst, worst_tol);
     vx_log("preproc: worst |E-Eref| = %g, allowance %g\n", worst, worst_tol);
   }
 
@@ -112,18 +127,17 @@ static void body(void) {
   vx_require(rank >= 1);
   int a;
   if (!big) a = 1 + vx_choose("npc-1", rank);
-  else { int cand[4] = {1, 2, rank - 1, rank}, u[4], nu = 0; for (int i = 0; i < 4; i++) { int dup = cand[i] < 1 || cand[i] > rank; for (int j = 0; j < nu; j++) if (u[j] == cand[i]) dup = 1; if (!dup) u[nu++] = cand[i]; } a = u[vx_choose("npc-sel", nu)]; }
+  else { int cand[4] = {rank, 1, rank - 1, 2}, u[4], nu = 0, want = (vx_thorough() && plain) ? 4 : 3; for (int i = 0; i < want; i++) { int dup = cand[i] < 1 || cand[i] > rank; for (int j = 0; j < nu; j++) if (u[j] == cand[i]) dup = 1; if (!dup) u[nu++] = cand[i]; } a = u[vx_choose("npc-sel", nu)]; }
   ld F = rm_fro(E0), kappa = sv[0] / sv[a - 1];
   double delta = nipals_delta(n, PCACONVERGENCE);
 
   /* ---------------------------------------------------------------- the fit under test */
   PCAMODEL *mod; NewPCAModel(&mod);
-  snprintf(key, sizeof key, "nonterm|PCA|%s", cls);
-  static char TK[160]; snprintf(TK, sizeof TK, "%s", key); fit_begin(nproc, real_threads, TK);
+  static char TK[200]; snprintf(TK, sizeof TK, "nonterm|PCA|scaling=%d", scaling); fit_begin(nproc, real_threads, TK);
   PCA(mx, scaling, (size_t)a, mod, NULL); vx_transition(1);
   long iters = H_KERNEL_CALLS / 2;
   if (nproc > 1) { snprintf(key, sizeof key, "seam|PCA|nproc=%d", nproc); vx_check(H_WORKERS == H_KERNEL_CALLS * nproc, key, "expected %ld worker launches, saw %ld", H_KERNEL_CALLS * nproc, H_WORKERS); }
-  vx_log("PCA (%dx%d) scaling %d npc %d nproc %d: %ld NIPALS iterations, rank %d, kappa_npc %.3Lg, sigma1 %.3Lg\n", n, p, scaling, a, nproc, iters, rank, kappa, sv[0]);
+  vx_log("PCA (%dx%d) scaling %d npc %d nproc %d%s: %ld NIPALS iterations, rank %d, kappa_npc %.3Lg, sigma1 %.3Lg\n", n, p, scaling, a, nproc, real_threads ? " (real threads)" : "", iters, rank, kappa, sv[0]);
 
   int shape_ok = (int)mod->scores->row == n && (int)mod->scores->col == a && (int)mod->loadings->row == p && (int)mod->loadings->col == a && (int)mod->varexp->size == a
                  && (int)mod->colaverage->size == (scaling >= 0 ? p : 0) && (int)mod->colscaling->size == (scaling >= 0 ? p : 0);
@@ -131,7 +145,7 @@ static void body(void) {
   vx_check(shape_ok, key, "(%dx%d) npc %d: scores %zux%zu loadings %zux%zu varexp %zu colaverage %zu colscaling %zu", n, p, a, mod->scores->row, mod->scores->col, mod->loadings->row, mod->loadings->col, mod->varexp->size, mod->colaverage->size, mod->colscaling->size);
   if (!shape_ok) { vx_outcome(1); return; }
   int finite = hm_allfinite(mod->scores) && hm_allfinite(mod->loadings) && hv_allfinite(mod->varexp);
-  snprintf(key, sizeof key, "finite|PCA|%s", cls);
+  snprintf(key, sizeof key, "finite|PCA|scaling=%d", scaling);
   vx_check(finite, key, "(%dx%d) scaling %d npc %d: non-finite scores/loadings/varexp", n, p, scaling, a);
   if (!finite) { vx_outcome(2); return; }
   /* stored centring/scaling are those of the public preprocessing */
@@ -142,6 +156,7 @@ static void body(void) {
   double tol_orth = 1e3 * DEPS * (n + p) * (double)kappa, worst_orth = 0;
   for (int i = 0; i < a; i++) for (int j = 0; j <= i; j++) { ld s = 0; for (int r = 0; r < p; r++) s += (ld)mod->loadings->data[r][i] * mod->loadings->data[r][j]; double d = fabs((double)(s - (i == j))); if (d > worst_orth) worst_orth = d; }
   vx_check(worst_orth <= tol_orth, "orth|PCA|loadings", "(%dx%d) scaling %d npc %d nproc %d: max |P'P - I| = %g, allowance %g", n, p, scaling, a, nproc, worst_orth, tol_orth);
+  margin_note("orth", worst_orth, tol_orth);
 
   /* ---- t_k = E_{k-1} p_k / p_k'p_k on the successively deflated matrix (reference deflation in long double with the library's t, p) */
   rmat *D = rm_copy(E0); double worst_proj = 0, tol_proj = 0;
@@ -152,18 +167,21 @@ static void body(void) {
     for (int i = 0; i < n; i++) for (int j = 0; j < p; j++) RM(D, i, j) -= (ld)mod->scores->data[i][k] * mod->loadings->data[j][k];
   }
   vx_check(worst_proj <= tol_proj, "proj|PCA|scores", "(%dx%d) scaling %d npc %d nproc %d: max |t_k - E_{k-1} p_k| = %g, allowance %g", n, p, scaling, a, nproc, worst_proj, tol_proj);
+  margin_note("proj", worst_proj, tol_proj);
 
   /* ---- E = T P' + R with R p_k = 0 for every extracted k (R = D now) */
   double tol_res = 1e3 * DEPS * (n + p) * (double)(kappa * F), worst_res = 0;
   for (int k = 0; k < a; k++) for (int i = 0; i < n; i++) { ld s = 0; for (int j = 0; j < p; j++) s += RM(D, i, j) * mod->loadings->data[j][k]; if (fabs((double)s) > worst_res) worst_res = fabs((double)s); }
   vx_check(worst_res <= tol_res, "resid-orth|PCA", "(%dx%d) scaling %d npc %d nproc %d: max |R p_k| = %g, allowance %g", n, p, scaling, a, nproc, worst_res, tol_res);
+  margin_note("resid-orth", worst_res, tol_res);
 
-  /* ---- the same residual through the public accessor (no MT_ kernel inside, so judged once per input: at nproc = 1) */
-  if (nproc == 1) {
+  /* ---- the same residual through the public accessor.  No MT_ kernel inside, so judged once per input: at nproc = 1.
+   * scaling = -1 is a known crash class (empty colaverage): it is observed in a forked child so that the key can carry the class;
+   * a fork of a sanitized process costs ~8 ms, so this is done on the unmodified inputs only. */
+  if (nproc == 1 && (scaling >= 0 || plain)) {
     matrix *rmx; initMatrix(&rmx);
-    struct grm_arg ga = {mx, mod, (size_t)a, rmx};
     int run_inproc = 1;
-    if (scaling < 0) {   /* known crash class: observe it in a child so that the key can carry the class */
+    if (scaling < 0) {
       matrix *tmp; initMatrix(&tmp); struct grm_arg gc = {mx, mod, (size_t)a, tmp};
       int died = probe_child_dies(call_grm, &gc); vx_transition(1);
       vx_check(!died, "childcrash|GetResidualMatrix|scaling=-1", "(%dx%d) npc %d: GetResidualMatrix on a model fitted without centring (empty colaverage) crashes", n, p, a);
@@ -172,23 +190,23 @@ static void body(void) {
     if (run_inproc) {
       GetResidualMatrix(mx, mod, (size_t)a, rmx); vx_transition(1);
       double tol_g = 64 * DEPS * (a + p + 2) * (double)F, dg = hm_maxdiff_rm(rmx, D);
-      snprintf(key, sizeof key, "resid-api|GetResidualMatrix|%s", cls);
+      snprintf(key, sizeof key, "resid-api|GetResidualMatrix|scaling=%d", scaling);
       vx_check(dg <= tol_g, key, "(%dx%d) scaling %d npc %d: max |GetResidualMatrix - (E - TP')| = %g, allowance %g", n, p, scaling, a, dg, tol_g);
+      margin_note("resid-api", dg, tol_g);
       vx_log("GetResidualMatrix: diff %g allowance %g\n", dg, tol_g);
     }
   }
 
   /* ---- explained variances */
   ld lam[NMAXC + 1]; for (int i = 0; i < m; i++) lam[i] = sv[i] * sv[i];
-  const char *scalecls = lam[a - 1] < 1 ? "lambda_npc<1" : "lambda_npc>=1";
   double sum = 0; int nonneg = 1; for (int k = 0; k < a; k++) { if (!(mod->varexp->data[k] >= 0)) nonneg = 0; sum += mod->varexp->data[k]; }
   vx_check(nonneg, "varexp-sign|PCA", "(%dx%d) scaling %d npc %d: negative explained variance", n, p, scaling, a);
-  /* sum_k |t_old,k|^2 <= (1+delta)^2 sum_k |t_k|^2 = (1+delta)^2 (ss - |R|^2)  (stop rule: |t_new - t_old| < delta |t_new|) */
+  /* sum_k |t_old,k|^2 <= (1+delta)^2 sum_k |t_k|^2 = (1+delta)^2 (ss - |R|^2)  (stop rule: |t_new - t_old| < delta |t_new|; the eigenvalue is t_old't_old) */
   double slack = 100 * (2 * delta + delta * delta) + 100 * 64 * DEPS * (n * p + 2);
   vx_check(sum <= 100 + slack, "varexp-sum|PCA|<=100", "(%dx%d) scaling %d npc %d: sum of explained variances %.12g > 100 (+%g)", n, p, scaling, a, sum, slack);
-  if (a == rank) vx_check(fabs(sum - 100) <= slack, "varexp-sum|PCA|=100-at-full-rank", "(%dx%d) scaling %d npc=rank %d: sum of explained variances %.12g, |sum-100| allowance %g", n, p, scaling, a, sum, slack);
+  if (a == rank) { vx_check(fabs(sum - 100) <= slack, "varexp-sum|PCA|=100-at-full-rank", "(%dx%d) scaling %d npc=rank %d: sum of explained variances %.12g, |sum-100| allowance %g", n, p, scaling, a, sum, slack); margin_note("varexp-sum=100", fabs(sum - 100), slack); }
   for (int k = 0; k + 1 < a; k++) if (lam[k + 1] <= 0.95L * lam[k]) {
-    snprintf(key, sizeof key, "varexp-order|PCA|%s", scalecls);
+    snprintf(key, sizeof key, "varexp-order|PCA|%s", lam[k + 1] < 10 ? "lambda<10" : "lambda>=10");
     vx_check(mod->varexp->data[k + 1] <= mod->varexp->data[k] + slack, key, "(%dx%d) scaling %d: varexp[%d]=%.10g > varexp[%d]=%.10g although reference eigenvalues are %.6Lg > %.6Lg", n, p, scaling, k + 1, mod->varexp->data[k + 1], k, mod->varexp->data[k], lam[k], lam[k + 1]);
   }
   vx_log("orth %g/%g proj %g/%g resid %g/%g varexp-sum %.14g (slack %g) iterations %ld\n", worst_orth, tol_orth, worst_proj, tol_proj, worst_res, tol_res, sum, slack, iters);
@@ -198,14 +216,16 @@ static void body(void) {
     matrix *xr; initMatrix(&xr);
     PCAIndVarPredictor(mod->scores, mod->loadings, mod->colaverage, mod->colscaling, (size_t)a, xr); vx_transition(1);
     double tol_b = 256 * DEPS * (a + p + 2) * (double)(F * maxsf + xmax), db = hm_maxdiff(xr, mx);
-    snprintf(key, sizeof key, "backtransform|PCAIndVarPredictor|%s", cls);
+    snprintf(key, sizeof key, "backtransform|PCAIndVarPredictor|%s", cls_fit);
     vx_check(db <= tol_b, key, "(%dx%d) scaling %d npc=rank %d: max |T P' * scale + mean - X| = %g, allowance %g", n, p, scaling, a, db, tol_b);
+    if (!has_zeroed) margin_note("backtransform", db, tol_b);
     matrix *ps; initMatrix(&ps);
     fit_begin(nproc, real_threads, "nonterm|PCAScorePredictor");
     PCAScorePredictor(mx, mod, (size_t)a, ps); vx_transition(1);
     double tol_s = 64 * DEPS * (a + p + 2) * (double)F, ds = hm_maxdiff(ps, mod->scores);
-    snprintf(key, sizeof key, "project|PCAScorePredictor|%s", cls);
+    snprintf(key, sizeof key, "project|PCAScorePredictor|%s", cls_apply);
     vx_check(ds <= tol_s, key, "(%dx%d) scaling %d npc=rank %d: max |projected training scores - scores| = %g, allowance %g", n, p, scaling, a, ds, tol_s);
+    if (!has_mid) margin_note("project", ds, tol_s);
     vx_log("backtransform %g/%g project %g/%g\n", db, tol_b, ds, tol_s);
     DelMatrix(&xr); DelMatrix(&ps);
   }
@@ -217,8 +237,9 @@ static void body(void) {
     PCA(mx, scaling, (size_t)a, m1, NULL); vx_transition(1);
     double tol_n = 64 * DEPS * (n + p + 2) * (double)F;
     double d1 = hm_maxdiff(m1->scores, mod->scores), d2 = hm_maxdiff(m1->loadings, mod->loadings), d3 = hv_maxdiff(m1->varexp, mod->varexp);
-    snprintf(key, sizeof key, "nproc|PCA|%s", (p % nproc || n % nproc) ? "ragged-slices" : "even-slices");
+    snprintf(key, sizeof key, "nproc|PCA|%s%s", (p % nproc || n % nproc) ? "ragged-slices" : "even-slices", real_threads ? ",real-threads" : "");
     vx_check(d1 <= tol_n && d2 <= tol_n && d3 <= 100 * tol_n, key, "(%dx%d) scaling %d npc %d: nproc=%d vs nproc=1 differ: scores %g loadings %g varexp %g (allowance %g)", n, p, scaling, a, nproc, d1, d2, d3, tol_n);
+    margin_note("nproc", d1 > d2 ? d1 : d2, tol_n);
     DelPCAModel(&m1);
   }
 
@@ -229,10 +250,10 @@ static void body(void) {
 
 int main(int argc, char **argv) {
   vg_seed(getenv("VERIF_SEED") ? atol(getenv("VERIF_SEED")) : 0);
-  vx_describe("alphabet", "shape (n,p) in {2..7}x{1..5} [thorough {2..10}x{1..8}] + {(60,25),(60,1),(2,25),(5,25),(25,5),(12,12)}; data = spectral(ratio .85 | .3, sigma_1/sigma_m<=1e3) | lattice, 4 [12] instances (2 [3] for boundary shapes); column modifiers dev<=1 [2]: offset {0,1,-7.5,1e3}, spread {as is, min SD 0.02, one column SD 0.02, x1e3}, one constant column {none,first,last,middle}; scaling -1..5; npc 1..rank (boundary shapes: 1,2,rank-1,rank); processor count {1,2,3,8} [+5,24] (boundary {1,3,8})");
-  vx_describe("oracle", "P'P=I; t_k=E_{k-1}p_k (long-double deflation); E=TP'+R, R p_k=0; GetResidualMatrix = R; varexp>=0, sum<=100, =100 at npc=rank, non-increasing where ref lambda ratio<=0.95; at npc=rank PCAIndVarPredictor reproduces X and PCAScorePredictor(X) reproduces T; nproc=k equals nproc=1. Tolerances: C*eps*size*kappa*|E|_F with kappa=sigma_1/sigma_npc from reference singular values; stop-rule slack 100*(2d+d^2), d=sqrt(n*1e-10), on the variance sum");
+  vx_describe("alphabet", "shape (n,p) in {2..7}x{1..5} [thorough {2..10}x{1..8}] + {(60,25),(60,1),(2,25),(5,25),(25,5),(12,12)}; data = spectral(ratio .85 | .3, sigma_1/sigma_m<=1e3) | lattice, 3 [12] instances (2 [3] for boundary shapes); column modifiers dev<=1 [2] (boundary shapes: none [at most one]): offset {0,1,-7.5,1e3}, spread {as is, min SD 0.02, one column SD 0.02, x1e3}, one constant column {none,first,last,middle}; scaling -1..5; npc 1..rank (boundary shapes: rank,1,rank-1[,2]); processor count {1,2,3,8} [+5,24] on unmodified inputs, {1,3} on modified ones, {1,8} [+3] on boundary shapes, plus real threads at nproc 3 on a small sub-alphabet");
+  vx_describe("oracle", "P'P=I; t_k=E_{k-1}p_k (long-double deflation); E=TP'+R, R p_k=0; GetResidualMatrix = R (nproc=1; scaling -1 probed in a child on unmodified inputs); varexp>=0, sum<=100, =100 at npc=rank, non-increasing where ref lambda ratio<=0.95; at npc=rank PCAIndVarPredictor reproduces X and PCAScorePredictor(X) reproduces T; nproc=k equals nproc=1. Tolerances: C*eps*size*kappa*|E|_F with kappa=sigma_1/sigma_npc from reference singular values; stop-rule slack 100*(2d+d^2), d=sqrt(n*1e-10), on the variance sum");
   vx_describe("preconditions", "column spread >= 0.02 or exactly 0; numerical rank (sigma_i/sigma_1 > 1e-6, gap to 1e-11) >= npc; ties at the 1e-3/1e-2 scale-factor guards pruned");
   vx_set_shard_depth(2);
-  vx_expect_outcomes(2000);
+  vx_expect_outcomes(300);   /* low on purpose: a library that breaks every fit must surface as violations, not as a vacuity error */
   return vx_main(argc, argv, "C01", body);
 }
